@@ -356,9 +356,15 @@ func (e *evaluator) binaryOp(op token.Token, l, r Value) (Value, *rtErr) {
 // equals implements ==. It never fails for acyclic values; the error result
 // only reports the step limit (cyclic containers).
 func (e *evaluator) equals(l, r Value) (bool, *rtErr) {
-	if err := e.step(); err != nil {
+	if err := e.enter(); err != nil {
 		return false, err
 	}
+	eq, err := e.equals1(l, r)
+	e.exit()
+	return eq, err
+}
+
+func (e *evaluator) equals1(l, r Value) (bool, *rtErr) {
 	switch a := l.(type) {
 	case Int:
 		switch b := r.(type) {
@@ -455,9 +461,15 @@ func (e *evaluator) equals(l, r Value) (bool, *rtErr) {
 // quoted, map keys are not (and are sorted here; the implementation uses Go
 // map order).
 func (e *evaluator) display(v Value) (string, *rtErr) {
-	if err := e.step(); err != nil {
+	if err := e.enter(); err != nil {
 		return "", err
 	}
+	s, err := e.display1(v)
+	e.exit()
+	return s, err
+}
+
+func (e *evaluator) display1(v Value) (string, *rtErr) {
 	switch v := v.(type) {
 	case Int:
 		return strconv.FormatInt(v.V, 10), nil
@@ -520,9 +532,15 @@ func (e *evaluator) display(v Value) (string, *rtErr) {
 
 // deepCopy implements copy(): a deep, mutable copy.
 func (e *evaluator) deepCopy(v Value) (Value, *rtErr) {
-	if err := e.step(); err != nil {
+	if err := e.enter(); err != nil {
 		return nil, err
 	}
+	c, err := e.deepCopy1(v)
+	e.exit()
+	return c, err
+}
+
+func (e *evaluator) deepCopy1(v Value) (Value, *rtErr) {
 	switch v := v.(type) {
 	case *Array:
 		var out []Value
